@@ -37,6 +37,8 @@ type MsgSpec struct {
 	// FileLen > 0 adds one attachment with that many arbitrary bytes (incl. NUL and CRLF).
 	FileLen int    `json:"file_len,omitempty"`
 	Tag     string `json:"tag,omitempty"` // makes two messages with the same MID differ in content
+	// Files is the number of attachments when FileLen > 0 (0 means one): repeated File header fields.
+	Files int `json:"files,omitempty"`
 }
 
 // Build constructs the library message for a spec (through the library's public constructors; the
@@ -75,6 +77,9 @@ func (s MsgSpec) Build() *fbb.Message {
 			copy(data[2:], []byte{0, '\r', '\n', 0})
 		}
 		m.AddFile(fbb.NewFile("att-"+s.MID+".bin", data))
+		for k := 2; k <= s.Files; k++ {
+			m.AddFile(fbb.NewFile(fmt.Sprintf("att%d-%s.bin", k, s.MID), append([]byte{byte(k)}, data[:len(data)/k]...)))
+		}
 	}
 	if s.P2POnly {
 		m.Header.Set("X-P2POnly", "true")
@@ -255,12 +260,18 @@ func CopyTree(src, dst string) error {
 				return err
 			}
 			return os.WriteFile(target, b, info.Mode().Perm())
+		case info.Mode()&os.ModeSymlink != 0:
+			to, err := os.Readlink(p)
+			if err != nil {
+				return err
+			}
+			return os.Symlink(to, target)
 		}
 		return nil
 	})
 }
 
-// ReadTree returns relative path -> content for every regular file below root ("" for directories
+// ReadTree returns relative path -> content for every regular file (and symbolic link to one) below root ("" for directories
 // is not recorded; empty directories are irrelevant to the mailbox).
 func ReadTree(root string) (map[string][]byte, error) {
 	out := map[string][]byte{}
@@ -268,14 +279,20 @@ func ReadTree(root string) (map[string][]byte, error) {
 		if err != nil {
 			return err
 		}
-		if info.Mode().IsRegular() {
-			b, err := os.ReadFile(p)
-			if err != nil {
-				return err
+		// a symbolic link to a regular file is recorded with the content seen through its name
+		if info.Mode()&os.ModeSymlink != 0 {
+			if st, err := os.Stat(p); err != nil || !st.Mode().IsRegular() {
+				return nil
 			}
-			rel, _ := filepath.Rel(root, p)
-			out[rel] = b
+		} else if !info.Mode().IsRegular() {
+			return nil
 		}
+		b, err := os.ReadFile(p)
+		if err != nil {
+			return err
+		}
+		rel, _ := filepath.Rel(root, p)
+		out[rel] = b
 		return nil
 	})
 	return out, err
